@@ -652,10 +652,10 @@ def erasure(v, programs, traces, prefix='C03.erasure'):
                     if o and (o['start'] != o.get('start_c', o['start']) or o.get('dur_c', o['dur_v']) != o['dur_v']):
                         return True
                 return False
-            if cl in ('C03.erasure.operation', 'C03.erasure.block') and (stale(fa) or stale(fb)) and \
+            if cl in ('C03.erasure.time', 'C03.erasure.block') and (stale(fa) or stale(fb)) and \
                     (memo_trigger(ta, len(ta)) or memo_trigger(tbk, len(tbk))):
                 sig = 'stale-memo'
-            elif cl in ('C03.erasure.operation', 'C03.erasure.indices', 'C03.erasure.export') and twin_trigger(ta, len(ta)) and \
+            elif cl in ('C03.erasure.index', 'C03.erasure.indices', 'C03.erasure.export') and twin_trigger(ta, len(ta)) and \
                     any(lf['acq_c'] == -1 for sn in list(fa.values()) + list(fb.values()) for lf in sn['leaves'].values()):
                 sig = 'twin-circuit-registry'          # the twin defect loses the registry: index -1 (a stale index is something else)
             v.fail(cl.replace('C03.erasure', prefix), {'trace': i, 'obj': obj}, signature=sig, replay={'program': programs[i], 'erased': erased[f['row'] - 1]})
